@@ -10,6 +10,12 @@ class Ctx:
         self.tier = tier
         self.seed = seed
         self.replay = replay
+        if replay:
+            # a replay file names the seed its case index belongs to
+            try:
+                self.seed = int(json.load(open(replay)).get("seed", seed))
+            except (OSError, ValueError, TypeError):
+                pass
         self.work = os.path.join(chk.WORK, prop)
         os.makedirs(self.work, exist_ok=True)
 
